@@ -31,6 +31,18 @@ def jBool (b : Bool) : Json := Json.bool b
 def jGen (r : List Nat × Option String) : Json :=
   Json.mkObj [("y", jNats r.1), ("err", match r.2 with | none => Json.null | some e => Json.str e)]
 
+/-- The harness stops following a real generator after 1000 yields and reports
+`Runaway` with the first 50; the model side does the same through capped fuel
+(a terminating run with `k` yields needs fuel `k + 1`). -/
+def yieldCap : Nat := 1000
+
+def bfsCapped (g : Graph) (start : Option Nat) (truthy : Bool) : List Nat × Option String :=
+  match Graph.breadthFirstWithFuel (yieldCap + 1) g start truthy with
+  | (ys, some "OutOfFuel") => (ys.take 50, some "Runaway")
+  | (ys, e) =>
+    -- a finished run that the model's own fuel `bfsFuel g` would not have covered is exposed
+    if ys.length + 1 > Graph.bfsFuel g then (ys, some "OutOfFuel") else (ys, e)
+
 def jAdj (d : Dict (List Nat)) : Json :=
   jList (fun p : Nat × List Nat => Json.arr #[jNat p.1, jNats p.2]) d
 
@@ -84,7 +96,7 @@ def query (g : Graph) (j : Json) : Except String Json := do
     ("is_source", jE jBool (g.isSource n)),
     ("dmax", jDepth (g.getNodeDepth n false)),
     ("dmin", jDepth (g.getNodeDepth n true)),
-    ("bfs", jGen (g.breadthFirst (some n) (!falsy.contains n))),
+    ("bfs", jGen (bfsCapped g (some n) (!falsy.contains n))),
     ("dfs", jGen (g.depthFirst (some n)))]
   let dep := pairs.map fun p => jE jBool (g.areDependent p.1 p.2)
   let lw := ws.map fun t => Json.mkObj [
@@ -97,7 +109,7 @@ def query (g : Graph) (j : Json) : Except String Json := do
     ("sources", jNats g.getSources),
     ("sinks", jNats g.getSinks),
     ("topo", jE jNats g.topologicalSort),
-    ("bfs", jGen (g.breadthFirst none)),
+    ("bfs", jGen (bfsCapped g none true)),
     ("dfs", jGen (g.depthFirst none)),
     ("longest", jE jNats g.getLongestPathDefault),
     ("per", Json.arr per.toArray),
